@@ -187,3 +187,11 @@ EXTRA["C18"] = EXTRA.get("C18", []) + [
     M("filter-serialised-from-set", "compactfilter.py", "        return serialize_gcs(self.sorted_hashes)\n",
       "        return serialize_gcs(sorted(list(self.hashes)))\n", ["C18.19"], "values that occur twice are dropped on serialisation (F42 undone)"),
 ]
+
+EXTRA["C17"] = EXTRA.get("C17", []) + [
+    M("compact-coefficient-not-padded", "helper.py", "    coefficient = coefficient.ljust(3, b\"\\x00\")\n", "    coefficient = coefficient\n", ["C17.20"], "small targets written with a short coefficient (F43 undone)"),
+]
+
+EXTRA["C17"] = EXTRA.get("C17", []) + [
+    M("pow-negative-target-accepted", "block.py", "        if self.bits[2] & 0x80 or target == 0 or target >= 1 << 256:\n", "        if target == 0 or target >= 1 << 256:\n", ["C17.21"], "compact sign bit read as magnitude (F44 undone in part)"),
+]
